@@ -200,6 +200,10 @@ pub struct RxCfg {
     /// peer guessed the ISS. No window (server) or only the SYN's window (client) has been on
     /// the wire, so whatever lies beyond that must not be accepted
     pub early: Option<(usize, usize)>,
+    /// (ack delay, keep-alive interval) in ms: delayed ACKs are on and keep-alive probes are sent
+    /// more often than the ACK delay, so a probe can leave while received octets are still
+    /// unacknowledged (what it carries in its ACK and window fields is then what the peer knows)
+    pub ka: Option<(u64, u64)>,
 }
 
 #[derive(Clone, Debug, PartialEq)]
@@ -321,6 +325,10 @@ impl Harness for Rx {
     type Ev = RxEv;
     fn new(cfg: &RxCfg) -> Rx {
         let mut w = One::with_mtu_burst(cfg.rx, 64, 0x77, cfg.mtu, cfg.burst);
+        if let Some((ad, ka)) = cfg.ka {
+            w.sock().set_ack_delay(Some(smoltcp::time::Duration::from_millis(ad)));
+            w.sock().set_keep_alive(Some(smoltcp::time::Duration::from_millis(ka)));
+        }
         let p = cfg.peer_isn;
         let ws_opt: Vec<u8> = if cfg.wscale { vec![2, 4, 5, 180, 3, 3, cfg.peer_ws, 1] } else { vec![2, 4, 5, 180] };
         if cfg.reuse {
@@ -576,7 +584,7 @@ impl Harness for Rx {
 pub fn rx_configs(tier: Tier) -> Vec<(RxCfg, usize)> {
     let mut v = vec![];
     let (d_small, d_big) = if tier == Tier::Quick { (6, 3) } else { (9, 4) };
-    let base = RxCfg { name: "srv", rx: 4, l: 6, peer_isn: 0xffff_fffd, server: true, wscale: false, peer_ws: 0, reuse: false, stray: false, bp: false, syn_data: 0, burst: None, mtu: 1500, early: None };
+    let base = RxCfg { name: "srv", rx: 4, l: 6, peer_isn: 0xffff_fffd, server: true, wscale: false, peer_ws: 0, reuse: false, stray: false, bp: false, syn_data: 0, burst: None, mtu: 1500, early: None, ka: None };
     for &(rx, l) in &[(2usize, 6usize), (3, 6), (4, 6), (8, 10), (64, 10)] {
         v.push((RxCfg { rx, l, ..base.clone() }, d_small));
     }
@@ -600,6 +608,12 @@ pub fn rx_configs(tier: Tier) -> Vec<(RxCfg, usize)> {
     v.push((RxCfg { name: "early-data-cli", rx: 8, l: 10, early: Some((0, 3)), server: false, peer_isn: 0x7fff_fffd, ..base.clone() }, d_small));
     v.push((RxCfg { name: "early-data-cli-wscale-beyond-syn-window", rx: 70000, l: 70010, peer_isn: 0x7fff_0000, wscale: true, server: false, early: Some((66000, 10)), ..base.clone() }, d_big));
     v.push((RxCfg { name: "early-data-srv-wscale", rx: 70000, l: 70010, peer_isn: 0x7fff_0000, wscale: true, early: Some((66000, 10)), ..base.clone() }, d_big));
+    // keep-alive probes that leave while an ACK is still delayed
+    v.push((RxCfg { name: "keepalive-5ms-ackdelay-10ms", rx: 8, l: 16, ka: Some((10, 5)), ..base.clone() }, d_small));
+    v.push((RxCfg { name: "keepalive-5ms-ackdelay-10ms-cli", rx: 8, l: 16, ka: Some((10, 5)), server: false, peer_isn: 0x7fff_fffd, ..base.clone() }, d_small));
+    // a big buffer facing a peer that does not offer window scaling (passive and active open)
+    v.push((RxCfg { name: "bigrx-peer-without-ws-srv", rx: 70000, l: 70010, peer_isn: 0x7fff_0000, wscale: false, ..base.clone() }, d_big));
+    v.push((RxCfg { name: "bigrx-peer-without-ws-cli", rx: 70000, l: 70010, peer_isn: 0x7fff_0000, wscale: false, server: false, ..base.clone() }, d_big));
     // stray FINs / data reach the listening socket before the handshake
     v.push((RxCfg { name: "stray-before-syn", rx: 8, l: 6, stray: true, ..base.clone() }, d_small));
     // socket objects that served a connection before
